@@ -1,9 +1,65 @@
 import Driver.Util
-open Lean
+import Driver.PyJson
+import Driver.C05
+import Torf.Model.ReadStream
+open Lean Torf Torf.Bencode Torf.Codec Torf.ReadStream
 namespace Driver.C06
+open Driver.C05
 
-/-- ops of property C06: `c06.<name>` -/
-def handle (op : String) (_j : Json) : Except String Json :=
-  throw s!"unknown op {op}"
+/-- offset and length of the value of key `k` in `ser (.dict kvs)` for canonical `kvs` -/
+def valueSpan (k : Bytes) : List (Bytes × BVal) → Nat → Option (Nat × Nat)
+  | [], _ => none
+  | (k', v) :: t, off =>
+    if k' = k then some (off + (serBytes k').length, (ser v).length)
+    else valueSpan k t (off + (serBytes k').length + (ser v).length)
+
+/-- op `c06.export` : {m : metainfo as PyVal dict, vok} ↦ dump(), the bytes fed to SHA-1,
+    canonical-form verdict of the strict parser, span of the `info` value in the dump -/
+def exportOp (j : Json) : Except String Json := do
+  let m ← getPy j "m"
+  let vok ← getBool j "vok"
+  let validate ← getBool j "validate"
+  let env : Env := { fromTs := fun _ => none, validate := fun _ => vok }
+  match m with
+  | .dict md =>
+    let d := dump env md validate
+    let ib := infoBytes env md
+    let (canonOk, span) : Bool × Json := match d with
+      | .ok bs => (match parseStrict env.lim bs with
+        | some (.dict kvs) => (true, jopt (fun (p : Nat × Nat) => jnats [p.1, p.2]) (valueSpan kInfo kvs 1))
+        | _ => (false, Json.null))
+      | .error _ => (true, Json.null)
+    return jobj [("dump", jexc jhex d), ("infoBytes", jexc jhex ib),
+                 ("canon", jbool canonOk), ("span", span), ("hyp", jbool (wf m))]
+  | _ => throw "metainfo must be a dict"
+
+/-- op `c06.hash` : {digest} ↦ hexdigest, infohash_base32, magnet xt, decoders' round trips -/
+def hashOp (j : Json) : Except String Json := do
+  let d ← getHex j "digest"
+  let h := Base32.hexLower d
+  let b32 := match Base32.b16decode (Base32.upper h) with
+    | some d' => some (Base32.b32encode d')
+    | none => none
+  let str (b : Bytes) : Json := jstr (String.ofList (b.map fun c => Char.ofNat c.toNat))
+  return jobj [("hex", str h),
+               ("b32", jopt str b32),
+               ("xt", jexc str (magnetXt (urnBtih ++ h))),
+               ("b32dec", jopt jhex (b32.bind Base32.b32decode)),
+               ("unhex", jopt jhex (Base32.unhexLower h)),
+               ("hyp", jbool (d.length == 20))]
+
+/-- op `c06.b32` : {x} ↦ b32encode(x), b32decode(b32encode(x)) -/
+def b32Op (j : Json) : Except String Json := do
+  let x ← getHex j "x"
+  let e := Base32.b32encode x
+  return jobj [("enc", jstr (String.ofList (e.map fun c => Char.ofNat c.toNat))),
+               ("dec", jopt jhex (Base32.b32decode e))]
+
+def handle (op : String) (j : Json) : Except String Json :=
+  match op with
+  | "c06.export" => exportOp j
+  | "c06.hash" => hashOp j
+  | "c06.b32" => b32Op j
+  | _ => throw s!"unknown op {op}"
 
 end Driver.C06
